@@ -767,6 +767,23 @@ func c12PingOnce(serverPings, earlier int, interval time.Duration) (unanswered i
 		resolved = true
 	case <-time.After(10*time.Second + 60*interval):
 	}
+	if resolved {
+		// the client gives the connection up when it gives the request up: count once our reader has seen the end
+		// of what the client wrote (counting earlier can miss PINGs that were written but not parsed yet)
+		seenEnd := func() bool {
+			for _, ev := range sc.EventsCopy()[mark:] {
+				if ev.Kind == "eof" || ev.Kind == "error" {
+					return true
+				}
+			}
+			return false
+		}
+		for dl := time.Now().Add(5 * time.Second); !seenEnd(); time.Sleep(200 * time.Microsecond) {
+			if time.Now().After(dl) {
+				return 0, resolved, err, "the request resolved but the connection was not closed, so the PINGs cannot be counted reliably"
+			}
+		}
+	}
 	for _, ev := range sc.EventsCopy()[mark:] {
 		if ev.Kind == "ping" {
 			unanswered++
